@@ -264,6 +264,10 @@ def execute(wd, sc):
         return _execute_real(wd, sc)
     rec = M.run(wd, sc)
     V, errors = [], []
+    if rec.get("warmup_bound"):
+        wd.probes["c05.warmup_bound_hit"] += 1
+        return {"violations": [], "errors": [{"kind": "bound", "msg": rec["warmup_bound"]}], "info": {}, "key": None,
+                "nontrivial": False}
     if rec["harness"]:
         from simkit.world import HarnessError
 
